@@ -54,6 +54,8 @@ def fileObs (z : Bool) (data : Bytes) : String :=
   let rt := match decodeFile toyAE toyZstd key stored with
     | .ok d => if d = data then "same" else "diff"
     | .error _ => "err:Cryptography"
+  -- uncompressed plaintext starting with the zstd marker byte: error or other bytes, one observation (see harness)
+  let rt := if !z && data.head? == some 2 && rt != "same" then "marker-collision" else rt
   let ovh := if z then "z" else toString (stored.length - data.length)
   s!"ok rt={rt} ovh={ovh}"
 
